@@ -369,8 +369,30 @@ theorem cexpr_fromCtx {env : Env} {file : AFile} {G : List String} {Γ : Ctx} {K
       simp only [fragC, Bool.and_eq_true] at h
       obtain ⟨h1, h2⟩ := imm_fromCtx env h.1.1 (calleesC (Γ.map (·.1)) (.cget e (.struct sn) idx ty))
       simp only [compileCExpr, varsUsed, noBlockExpr]; exact ⟨h1, h2⟩
-  | toDyn tr forTy e ty => simp [fragC] at h
-  | dynCall tr m recv args ty => simp [fragC] at h
+  | toDyn tr forTy e ty =>
+    simp only [fragC, toDynOK, Bool.and_eq_true] at h
+    obtain ⟨h1, h2⟩ := imm_fromCtx env h.1.1.1 (calleesC (Γ.map (·.1)) (.toDyn tr forTy e ty))
+    simp only [compileCExpr, varsUsed, varsUsedList, Goml.Dce.varsUsedFields, noBlockExpr, noBlockList, Goml.Dce.noBlockFields,
+      mem_uni, Bool.and_eq_true, List.mem_singleton, List.not_mem_nil, or_false, Bool.and_true]
+    refine ⟨fun y hy => ?_, by first | exact h2 | exact ⟨h2, trivial⟩ | simp [h2]⟩
+    rcases hy with hy | rfl
+    · exact h1 y hy
+    · exact Or.inr (Or.inl (by simp [calleesC]))
+  | dynCall tr m recv args ty =>
+    simp only [fragC, dynCallOK, Bool.and_eq_true] at h
+    obtain ⟨⟨hr, _⟩, hcase⟩ := h
+    cases hsg : dynSig env tr m with
+    | none => rw [hsg] at hcase; cases hcase
+    | some s =>
+      rw [hsg] at hcase; simp only [Bool.and_eq_true] at hcase
+      obtain ⟨r1, r2⟩ := imm_fromCtx env hr (calleesC (Γ.map (·.1)) (.dynCall tr m recv args ty))
+      obtain ⟨a1, a2⟩ := imms_fromCtx env (calleesC (Γ.map (·.1)) (.dynCall tr m recv args ty)) hcase.1
+      simp only [compileCExpr, varsUsed, varsUsedList, noBlockExpr, noBlockList, mem_uni, Bool.and_eq_true]
+      exact ⟨fun y hy => by
+        rcases hy with hy | hy | hy
+        · exact r1 y hy
+        · exact r1 y hy
+        · exact a1 y hy, r2, r2, a2⟩
   | go e ty => simp [isGoC] at hgoc
   | proj e idx ty =>
     simp only [fragC, Bool.and_eq_true] at h
@@ -989,8 +1011,10 @@ theorem scopeC {env : Env} {file : AFile} {G : List String} {D : Names} :
     rw [compileTail_simple env m st (by rfl)]; exact scopeC_simple m _ Γ K sc rfl hfrag hctx htgt
   | .cget e c idx ty, m, st, Γ, K, sc, hfrag, hctx, hdecl, htgt => by
     rw [compileTail_simple env m st (by rfl)]; exact scopeC_simple m _ Γ K sc rfl hfrag hctx htgt
-  | .toDyn tr forTy e ty, m, st, Γ, K, sc, hfrag, _, _, _ => by simp [fragC] at hfrag
-  | .dynCall tr mm recv args ty, m, st, Γ, K, sc, hfrag, _, _, _ => by simp [fragC] at hfrag
+  | .toDyn tr forTy e ty, m, st, Γ, K, sc, hfrag, hctx, hdecl, htgt => by
+    rw [compileTail_simple env m st (by rfl)]; exact scopeC_simple m _ Γ K sc rfl hfrag hctx htgt
+  | .dynCall tr mm recv args ty, m, st, Γ, K, sc, hfrag, hctx, hdecl, htgt => by
+    rw [compileTail_simple env m st (by rfl)]; exact scopeC_simple m _ Γ K sc rfl hfrag hctx htgt
   | .go e ty, m, st, Γ, K, sc, hfrag, hctx, hdecl, htgt => by
     rw [compileTail_simple env m st (by rfl)]; exact scopeC_simple m _ Γ K sc rfl hfrag hctx htgt
   | .proj e idx ty, m, st, Γ, K, sc, hfrag, hctx, hdecl, htgt => by
